@@ -33,6 +33,32 @@ class Xq9ErrorSub(Xq9ErrorCustom):
 BUILTIN_EXC['Xq9ErrorCustom'] = Xq9ErrorCustom
 BUILTIN_EXC['Xq9ErrorSub'] = Xq9ErrorSub
 
+
+class Xq9Timeout(TimeoutError):
+    pass
+
+
+def _lib_exc():
+    import json as _json
+
+    from pjrpc.server import validators as _v
+    return {
+        'TimeoutError': TimeoutError, 'ConnectionError': ConnectionError, 'Xq9Timeout': Xq9Timeout,
+        'NotImplementedError': NotImplementedError, 'UnicodeError': UnicodeError, 'RecursionError': RecursionError,
+        'ArithmeticError': ArithmeticError, 'AttributeError': AttributeError, 'IndexError': IndexError,
+        'StopAsyncIteration': StopAsyncIteration, 'BufferError': BufferError,
+        # the library's own (non-protocol) exception types raised by user code
+        'PjBaseError': pjrpc.exceptions.BaseError, 'PjDeserializationError': pjrpc.exceptions.DeserializationError,
+        'PjIdentityError': pjrpc.exceptions.IdentityError, 'PjValidationError': _v.ValidationError,
+        'JSONDecodeError': lambda m: _json.JSONDecodeError(m, 'doc', 0),
+        # exceptions whose arguments are live, non-JSON objects
+        'PjValidationErrorLive': lambda m: _v.ValidationError(ValueError(m), object()),
+        'ValueErrorLive': lambda m: ValueError(m, object(), {1, 2}),
+    }
+
+
+BUILTIN_EXC.update(_lib_exc())
+
 TYPED_CODE = 70001
 TYPED_MESSAGE = 'probe typed error'
 
